@@ -39,13 +39,13 @@ NOISE = [
 def scenarios(thorough, seed=0):
     S = []
 
-    def add(name, prior, setup, target, touches_ads=False, swallow=(), crash_quick=False):
+    def add(name, prior, setup, target, touches_ads=False, swallow=(), crash_quick=False, crash_only=False):
         variant = ""
         for cls in ("empty", "item_present", "item_referenced", "types_present", "items_present"):
             if prior.startswith(cls + "_"):
                 prior, variant = cls, prior[len(cls) + 1:]
         S.append({"name": name, "prior": prior, "variant": variant, "setup": setup, "op": target, "touches_ads": touches_ads,
-                  "swallow": list(swallow), "crash_quick": crash_quick})
+                  "swallow": list(swallow), "crash_quick": crash_quick, "crash_only": crash_only})
 
     both = dict(am=True, aa=True)
     # adsorbates
@@ -84,11 +84,16 @@ def scenarios(thorough, seed=0):
     add("isotherm_to_db", "item_present", [o("iso_to", "d1", "I1", **both)], o("iso_to", "d1", "I1", **both))
     add("isotherm_delete_db", "item_present", [o("iso_to", "d1", "I1", **both)], o("iso_del", "d1", "I1", by="id"), False, (), True)
     add("isotherm_delete_db", "item_present_model_isotherm", [o("iso_to", "d1", "I3", **both), o("iso_to", "d1", "I1", **both)], o("iso_del", "d1", "I3", by="obj"))
+    # a write transaction larger than the page cache: only crash points (each run moves ~6 MB)
+    if LARGE in sc.ISOS:
+        add("isotherm_to_db:autoinsert", "empty_transaction_larger_than_page_cache", [], o("iso_to", "d1", LARGE, **both), False, (), True, True)
     if thorough:
         # "arbitrary prior content": the same scenarios on a file (and a session) that already hold unrelated items
         noise = NOISE[seed % len(NOISE)]
         keys = {(x["op"][:3], x["k"]) for x in noise}
         for sc_ in list(S):
+            if sc_["crash_only"]:
+                continue
             mine = {(x["op"][:3], x["k"]) for x in sc_["setup"] + [sc_["op"]]}
             uses_iso = [x["k"] for x in sc_["setup"] + [sc_["op"]] if x["op"].startswith("iso")]
             refs = set()
@@ -100,6 +105,19 @@ def scenarios(thorough, seed=0):
         add("isotherm_to_db:autoinsert", "empty_large_isotherm", [], o("iso_to", "d1", "I8", **both), True)
         add("isotherm_delete_db", "item_present_large_isotherm", [o("iso_to", "d1", "I8", **both)], o("iso_del", "d1", "I8", by="obj"))
     return S
+
+
+LARGE = "I9"
+
+
+def add_cache_exceeding_isotherm():
+    """One transaction larger than SQLite's page cache (default 2 MB): 80 000 points x 4 float columns are about
+    6 MB of JSON; measured: from about 40 000 points on pages of the open transaction are written into the database
+    file before the commit (protected only by the rollback journal)."""
+    sc.ISOS[LARGE] = ("point", "M2", "m0", "A2", "a0", "tp", "plain")
+    sc.ISO_META[LARGE] = {"vkey": LARGE}
+    sc.EXTRA_COLUMNS[LARGE] = ["colA", "colB"]
+    sc.LARGE_POINTS[LARGE] = 80000
 
 
 def add_large_isotherm():
@@ -167,7 +185,7 @@ class Harness:
         else:
             s.pygaps.MATERIAL_LIST[:] = self.snap_reg[0]
             s.pygaps.ADSORBATE_LIST[:] = self.snap_reg[1]
-            s.isos = {k: sc.make_isotherm(k) for k in s.isos}
+            s.isos = {k: s.build(k) for k in s.isos}
 
     def retrievals(self, sc_):
         out = {}
@@ -247,6 +265,7 @@ def main(tier, seed):
     run = Run(PID, tier, seed, "model_checking")
     thorough = tier == "thorough"
     scratch = tlc.scratch("c09-")
+    add_cache_exceeding_isotherm()
     if thorough:
         add_large_isotherm()
     try:
@@ -343,6 +362,8 @@ def main(tier, seed):
                      "; distinct = (operation, prior content, k, fault kind); non-trivial = a fault was actually injected")
     finally:
         shutil.rmtree(scratch, ignore_errors=True)
+        for tab in (sc.ISOS, sc.ISO_META, sc.EXTRA_COLUMNS, sc.LARGE_POINTS):
+            tab.pop(LARGE, None)
         if thorough:
             sc.ISOS.pop("I8", None)
             sc.ISO_META.pop("I8", None)
@@ -377,7 +398,7 @@ def enumerate_faults(run, H, scen, thorough, seed):
     def trace(log, K, outcome, m):
         tid[0] += 1
         i = "t%d" % tid[0]
-        traces.append({"id": i, "K": K, "outcome": outcome, "ev": [{k: e[k] for k in ("e", "c", "k", "sql", "fault")} for e in log]})
+        traces.append({"id": i, "K": K, "outcome": outcome, "ev": [{k: e.get(k, "") for k in ("e", "c", "k", "sql", "pname", "pval", "fault")} for e in log]})
         meta[i] = m
         return i
 
@@ -413,7 +434,7 @@ def enumerate_faults(run, H, scen, thorough, seed):
                              "others_same": others, "facts": {k: v for k, v in fd["_facts"].items() if k != "n_rest"},
                              "retr_pre": retr_pre, "retr": retr, "rep_out": rep["out"], "rep_post": rep_post}, m))
 
-        for k in range(1, K + 1):
+        for k in range(1, K + 1 if not sc_["crash_only"] else 0):
             for kind in KINDS:
                 H.restore()
                 r, log = H.call(op_, sc.Plan(k, kind))
@@ -428,6 +449,12 @@ def enumerate_faults(run, H, scen, thorough, seed):
         if do_crash:
             points = [(k, kind) for k in range(1, K + 1) for kind in ("exit_before", "exit_after")]
             points += [(K, "exit_before_commit"), (K, "exit_after_commit")]
+            if sc_["crash_only"]:
+                data = [e["k"] for e in log0 if e["e"] == "exec" and e["sql"] == "write"][-4:]     # the rows of isotherm_data
+                if thorough:
+                    points = [p for p in points if p[0] >= data[0] - 1]
+                else:
+                    points = [(data[1], "exit_after"), (K, "exit_before_commit")]
             for k, kind in points:
                 H.restore()
                 code, log = H.crash_call(op_, sc.Plan(k, kind))
